@@ -69,7 +69,15 @@ impl StreamReader {
         }
 
         // 3. buffer 为空，从 channel 接收新数据
-        match self.reader_rx.recv().await {
+        // An empty chunk carries no bytes: returning 0 for it would look like
+        // end-of-stream to the caller, so skip it and wait for the next chunk.
+        let received = loop {
+            match self.reader_rx.recv().await {
+                Some(data) if data.is_empty() && !buf.is_empty() => continue,
+                other => break other,
+            }
+        };
+        match received {
             Some(data) => {
                 let data_len = data.len();
                 tracing::debug!(
